@@ -28,7 +28,10 @@ Docs == <<
   [items |-> <<F(1,0,1), H(1)>>, term |-> FALSE, origins |-> {"parsed"}],
   \* a trailing top-level comment as the unterminated last line (after reformatting it follows the paragraph directly)
   [items |-> <<F(1,0,1), BL, H(1)>>, term |-> FALSE, origins |-> {"parsed"}],
-  [items |-> <<H(1)>>, term |-> FALSE, origins |-> {"parsed"}]
+  [items |-> <<H(1)>>, term |-> FALSE, origins |-> {"parsed"}],
+  \* the unterminated last line is a field with an EMPTY value ("B:" / "B: ")
+  [items |-> <<F(1,0,1), BL, F(2,1,0)>>, term |-> FALSE, origins |-> {"parsed"}],
+  [items |-> <<F(2,0,0)>>, term |-> FALSE, origins |-> {"parsed", "para_parsed"}]
 >>
 
 KeysSet == {1, 2}
